@@ -250,6 +250,15 @@ func valRange(
 		return object.NewValueErr("cannot use 0 for range step")
 	}
 
+	// NOTE: steps larger than size select only the first element
+	// (clamp them to prevent overflow of the index)
+	if step > int64(size)+1 {
+		step = int64(size) + 1
+	}
+	if step < -int64(size)-1 {
+		step = -int64(size) - 1
+	}
+
 	start, stop := fixRange(r, int64(size), step)
 
 	hasNext := func(i int64, stop int64) bool {
@@ -272,15 +281,22 @@ func canBeUsedForRange(o object.PanObject) bool {
 }
 
 func fixRange(r *object.PanRange, length int64, step int64) (int64, int64) {
+	// both ends of the sequence in the direction of step
+	lower, upper := int64(0), length
+	if step < 0 {
+		lower, upper = -1, length-1
+	}
+
+	// NOTE: out-of-range values are clamped to the ends
 	fix := func(i int64) int64 {
 		if i < -length {
-			return 0
-		}
-		if i > length {
-			return length
+			return lower
 		}
 		if i < 0 {
 			return i + length
+		}
+		if i > upper {
+			return upper
 		}
 		return i
 	}
